@@ -143,6 +143,10 @@ known("KF20-mpe-semiring-mode", ["C20"],
       "0.9::g. 0.3::c; 0.1::b. q :- g. q :- \\+b. query(g). query(c). query(b). evidence(g).  --use-semiring prints probability 0.9 and no atoms; MaxSAT mode prints g, \\+c, \\+b, 0.54",
       match_any=[{"clause": c, "mode": "semiring"} for c in ["reported-probability", "answered-unsatisfiable-evidence", "assignment-violates-evidence", "not-most-probable", "reported-unsatisfiable"]])
 fixed("FX21-mpe-maxsat-false-evidence", ["C20"], "cfac4cc", "MaxSAT MPE printed an assignment and a probability for a model whose evidence is deterministically false", "0.2::c. q :- \\+c. q :- c. query(c). evidence(q, false).")
+known("KF21-dt-score-zero-when-no-decision-is-relevant", ["C21"],
+      "when no decision fact is reached while grounding the utility atoms, dtproblog returns the empty strategy with score 0.0 ('no decisions found') instead of the expected utility of the (decision-independent) program",
+      "0.6::f. 0.1::g. 0.6::h. c :- h, f, g. ?::d1. utility(c, 2).   score 0.0, expected utility 0.072",
+      match={"clause": "reported-score", "no_decision_grounded": True})
 fixed("FX1-break-cycles-true-child", ["C01", "C09"], "29bdee9",
       "AssertionError in LogicFormula.get_node(0) from _break_cycles when a disjunction below an evidence node contains the TRUE node",
       "0.1::h(c1). d(c1). d(c2). p(X) :- d(X), r(c1). p(Y) :- d(Y). r(X) :- p(X). r(Y) :- d(Y), h(X). query(p(c1)). evidence(r(c1)).")
